@@ -363,16 +363,9 @@ pub fn dot_completions(
             .ok()?;
     let index = HirResultsIndex::new(&hir_table);
     let expr_id = index.expr_id(&lhs_ptr)?;
-    let ty = normalize_completion_ty(results.expr_ty(expr_id)?.clone());
+    let ty = results.expr_ty(expr_id)?.clone();
     let items = completions_for_type(&genv, &ty);
     Some(filter_dot_items(items, &prefix))
-}
-
-fn normalize_completion_ty(ty: tast::Ty) -> tast::Ty {
-    match ty {
-        tast::Ty::TRef { elem } => normalize_completion_ty(*elem),
-        other => other,
-    }
 }
 
 fn completions_for_type(genv: &GlobalTypeEnv, ty: &tast::Ty) -> Vec<DotCompletionItem> {
@@ -507,7 +500,6 @@ fn type_constructor_name(ty: &tast::Ty) -> Option<&str> {
     match ty {
         tast::Ty::TEnum { name } | tast::Ty::TStruct { name } => Some(name.as_str()),
         tast::Ty::TApp { ty, .. } => type_constructor_name(ty),
-        tast::Ty::TRef { elem } => type_constructor_name(elem),
         _ => None,
     }
 }
